@@ -32,8 +32,16 @@ func (r *rs) iocopy() {
 	pid, p := param(fn, 2)
 	mid, mx := param(fn, 3)
 	isP, isMax := flow.IsObj(info, p), flow.IsObj(info, mx)
+	// the stream is read directly, or through io.LimitReader(r, N) which bounds the read by N
+	limited := func(e ast.Expr) *ast.CallExpr {
+		lc, ok := ast.Unparen(e).(*ast.CallExpr)
+		if ok && core.IsFunc(core.CalleeFunc(info, lc), "io", "", "LimitReader") && len(lc.Args) == 2 && flow.IsObj(info, rd)(lc.Args[0]) {
+			return lc
+		}
+		return nil
+	}
 	reads := flow.FindCalls(fn.Decl.Body, func(call *ast.CallExpr) bool {
-		return flow.MethodOn(call, "Read", flow.IsObj(info, rd)) && len(call.Args) == 1
+		return len(call.Args) == 1 && (flow.MethodOn(call, "Read", flow.IsObj(info, rd)) || flow.MethodOn(call, "Read", func(e ast.Expr) bool { return limited(e) != nil }))
 	})
 	writes := flow.FindCalls(fn.Decl.Body, func(call *ast.CallExpr) bool {
 		return flow.MethodOn(call, "Write", flow.IsObj(info, wr)) && len(call.Args) == 1
@@ -69,7 +77,50 @@ func (r *rs) iocopy() {
 		c.Undecidedf("R3.bounded", "Iocopy/buffer-assignments", fn.Decl.Pos(), "the buffer parameter is re-assigned in a form other than p = p[:k]")
 		return
 	}
+	detailMax := "the buffer handed to Read must hold at most max bytes on every path (len(p) <= max tested, or p = p[:max]): otherwise one Read takes bytes beyond the end of the RDB, which are written to the RDB consumer / dump file and are missing from the command stream"
+	var lim *ast.CallExpr
+	if sel, ok := ast.Unparen(reads[0].Fun).(*ast.SelectorExpr); ok {
+		lim = limited(sel.X)
+	}
+	// p[:L] with L a local that is max, or was compared with max
+	var bound types.Object
+	if se, ok := ast.Unparen(reads[0].Args[0]).(*ast.SliceExpr); ok && isP(se.X) && se.Max == nil && se.High != nil && (se.Low == nil || isConst(info, se.Low, 0)) && !isMax(se.High) {
+		bound = flow.Obj(info, se.High)
+	}
 	switch arg := ast.Unparen(reads[0].Args[0]); {
+	case lim != nil:
+		mf, nf := lin.Of(info, mid), lin.Of(info, lim.Args[1])
+		switch {
+		case nf.Equal(mf):
+			c.Okf("R3.bounded", "Iocopy/read-at-most-max", reads[0].Pos(), "the read goes through io.LimitReader(r, max)")
+		case (lin.Form{Coef: nf.Coef}).Equal(lin.Form{Coef: mf.Coef}) && nf.Const > mf.Const:
+			c.Check("R3.bounded", "Iocopy/read-at-most-max", reads[0].Pos(), false, detailMax)
+		default:
+			c.Undecidedf("R3.bounded", "Iocopy/read-at-most-max", reads[0].Pos(), "limit %s of the LimitReader is not max", c.Src(lim.Args[1]))
+		}
+	case bound != nil:
+		isB := flow.IsObj(info, bound)
+		setMax := func(m ast.Node) bool {
+			as, ok := m.(*ast.AssignStmt)
+			if !ok || len(as.Lhs) != len(as.Rhs) {
+				return false
+			}
+			for i, l := range as.Lhs {
+				if isB(l) && isMax(unconv(info, as.Rhs[i])) {
+					return true
+				}
+			}
+			return false
+		}
+		leMax := flow.Establishes(g, func(f cfgq.Fact) bool {
+			x, y, op, ok := flow.Rel(f)
+			if !ok {
+				return false
+			}
+			return isB(x) && isMax(y) && (op == token.LEQ || op == token.LSS || op == token.EQL) || isMax(x) && isB(y) && (op == token.GEQ || op == token.GTR || op == token.EQL)
+		})
+		w := g.Path(cfgq.Query{From: g.Entry(), Avoid: setMax, AvoidEdge: leMax, Target: isNode(rp.Node())})
+		c.Check("R3.bounded", "Iocopy/read-at-most-max", reads[0].Pos(), w == nil, detailMax, w...)
 	case isP(arg):
 		w := g.Path(cfgq.Query{From: g.Entry(), Avoid: clamp, AvoidEdge: small, Target: isNode(rp.Node())})
 		c.Check("R3.bounded", "Iocopy/read-at-most-max", reads[0].Pos(), w == nil,
@@ -110,7 +161,18 @@ func (r *rs) iocopy() {
 	for _, pt := range g.Points(func(m ast.Node) bool { _, ok := m.(*ast.ReturnStmt); return ok }) {
 		ret := pt.Node().(*ast.ReturnStmt)
 		nret++
-		res := unconv(info, local(unconv(info, ret.Results[0])))
+		var result ast.Expr
+		if len(ret.Results) == 1 {
+			result = ret.Results[0]
+		} else if len(ret.Results) == 0 && fn.Decl.Type.Results != nil && len(fn.Decl.Type.Results.List) == 1 && len(fn.Decl.Type.Results.List[0].Names) == 1 {
+			// a bare return of the named result: what it was last assigned on the way here
+			result = flow.ChaseDef(g, fn.Decl.Type.Results.List[0].Names[0], pt)
+		}
+		if result == nil {
+			c.Undecidedf("R3.bounded", "Iocopy/returns-count", ret.Pos(), "result not recognised")
+			continue
+		}
+		res := unconv(info, local(unconv(info, result)))
 		call, isCall := res.(*ast.CallExpr)
 		isLen := isCall && flow.IsBuiltin(info, call, "len")
 		switch {
@@ -122,7 +184,7 @@ func (r *rs) iocopy() {
 			w := g.Path(cfgq.Query{From: rp, After: true, Avoid: trunc, Target: isNode(ret)})
 			c.Check("R3.bounded", "Iocopy/returns-count", ret.Pos(), w == nil, "len(p) is the number of bytes moved only after p = p[:n]: a larger result makes the caller's countdown end before the RDB does", w...)
 		default:
-			c.Undecidedf("R3.bounded", "Iocopy/returns-count", ret.Pos(), "result %s not recognised", c.Src(ret.Results[0]))
+			c.Undecidedf("R3.bounded", "Iocopy/returns-count", ret.Pos(), "result %s not recognised", c.Src(result))
 		}
 		okW, ww := g.Dominated(pt, isNode(wp.Node()))
 		c.Check("R3.bounded", "Iocopy/write-before-return", ret.Pos(), okW, "the bytes counted in the result must have been written", ww...)
@@ -172,116 +234,119 @@ func (r *rs) boundedCaller(key string, fn *core.Fn, g *cfgq.Graph, root ast.Node
 	isCall := func(e ast.Expr) bool {
 		return unconv(info, flow.ValueOf(info, root, unconv(info, e))) == ast.Expr(call)
 	}
+	// The remaining count M = max argument as a linear form (x; total - done; total - done.Get(); a local
+	// holding one of these). The result of Iocopy must be taken off M: subtracted from a variable that
+	// counts down in M, or added to a variable/counter that M subtracts.
 	var goOn, stop, known func(cfgq.Fact) bool // facts that say "bytes remain" / "nothing remains"; facts that are understood
 	var tracked []types.Object
-	what := ""
+	forms := []lin.Form{lin.Of(info, maxArg)}
+	core.Inspect(maxArg, func(m ast.Node) bool {
+		if id, ok := m.(*ast.Ident); ok {
+			if v, isVar := core.ObjOf(info, id).(*types.Var); isVar {
+				tracked = append(tracked, v)
+			}
+		}
+		return true
+	})
+	// a max variable that is recomputed as total - done.Get() stands for that form as well
 	if x := flow.Obj(info, maxArg); x != nil {
-		// form A: x -= Iocopy(.., x) while x != 0
-		sub := false
-		core.Inspect(root, func(m ast.Node) bool {
-			if as, ok := m.(*ast.AssignStmt); ok && len(as.Lhs) == 1 && len(as.Rhs) == 1 && flow.IsObj(info, x)(as.Lhs[0]) {
-				if as.Tok == token.SUB_ASSIGN && isCall(as.Rhs[0]) {
-					sub = true
-				}
-				if be, ok := ast.Unparen(as.Rhs[0]).(*ast.BinaryExpr); ok && as.Tok == token.ASSIGN && be.Op == token.SUB && flow.IsObj(info, x)(be.X) && isCall(be.Y) {
-					sub = true
-				}
+		defs, _ := defsOf(info, root, x)
+		for _, d := range defs {
+			f := lin.Of(info, d)
+			if len(f.Coef) >= 2 {
+				forms = append(forms, f)
+				core.Inspect(d, func(m ast.Node) bool {
+					if id, ok := m.(*ast.Ident); ok {
+						if v, isVar := core.ObjOf(info, id).(*types.Var); isVar {
+							tracked = append(tracked, v)
+						}
+					}
+					return true
+				})
 			}
-			return true
-		})
-		if !sub {
-			c.Undecidedf("R3.bounded", key+"/max-is-remaining", call.Pos(), "the result of Iocopy is not subtracted from its max argument %s", x.Name())
-			return
-		}
-		c.Okf("R3.bounded", key+"/max-is-remaining", call.Pos(), "max is the remaining count %s and the result is subtracted from it", x.Name())
-		// the countdown starts at the announced size
-		r.startsAt(key, root, x, sizeParam, info, call.Pos())
-		isX := flow.IsObj(info, x)
-		what = x.Name() + " != 0"
-		tracked = []types.Object{x}
-		known = func(f cfgq.Fact) bool { _, _, ok := flow.Cmp(info, f, isX); return ok }
-		goOn = func(f cfgq.Fact) bool { return nonZero(info, f, isX) }
-		stop = func(f cfgq.Fact) bool {
-			op, k, ok := flow.Cmp(info, f, isX)
-			return ok && (op == token.EQL && k == 0 || op == token.LEQ && k == 0 || op == token.LSS && k == 1)
-		}
-	} else {
-		// form B: max = total - done.Get(); done.Add(Iocopy(..)) while total != done.Get()
-		b := pat.Expr("_total - _done.Get()").Match(info, maxArg, nil)
-		if b == nil {
-			c.Undecidedf("R3.bounded", key+"/max-is-remaining", call.Pos(), "max argument %s is neither the remaining counter nor total - done.Get()", c.Src(call.Args[3]))
-			return
-		}
-		added := false
-		core.Inspect(root, func(m ast.Node) bool {
-			if ac, ok := m.(*ast.CallExpr); ok {
-				if ab := pat.Expr("_done.Add(_v)").Match(info, ac, pat.Binds{"_done": b["_done"]}); ab != nil && isCall(ab["_v"].(ast.Expr)) {
-					added = true
-				}
-			}
-			return true
-		})
-		if !added {
-			c.Undecidedf("R3.bounded", key+"/max-is-remaining", call.Pos(), "the result of Iocopy is not added to the progress counter %s", c.Src(b["_done"]))
-			return
-		}
-		c.Okf("R3.bounded", key+"/max-is-remaining", call.Pos(), "max is total - done and the result is added to done")
-		if to := flow.Obj(info, b["_total"]); to != nil {
-			r.startsAt(key, root, to, sizeParam, info, call.Pos())
-		} else if sizeParam != nil {
-			sid := ast.NewIdent(sizeParam.Name())
-			info.Uses[sid] = sizeParam
-			want, got := lin.Of(info, sid), lin.Of(info, b["_total"].(ast.Expr))
-			k := key + "/counts-announced-size"
-			switch {
-			case got.Equal(want):
-				c.Okf("R3.bounded", k, call.Pos(), "the total is the announced size")
-			case (lin.Form{Coef: got.Coef}).Equal(lin.Form{Coef: want.Coef}):
-				c.Failf("R3.bounded", k, call.Pos(), "the copy counts %s%+d bytes, not the announced size: the dump is cut short or runs into the command stream by that many bytes", sizeParam.Name(), got.Const-want.Const)
-			default:
-				c.Undecidedf("R3.bounded", k, call.Pos(), "the total %s is not the size parameter", c.Src(b["_total"]))
-			}
-		} else {
-			c.Undecidedf("R3.bounded", key+"/counts-announced-size", call.Pos(), "size parameter not resolved")
-		}
-		isTotal := func(e ast.Expr) bool { return pat.Same(info, e, b["_total"]) }
-		isDone := func(e ast.Expr) bool {
-			return pat.Expr("_done.Get()").Match(info, e, pat.Binds{"_done": b["_done"]}) != nil
-		}
-		// a local that holds total - done.Get()
-		isRem := func(e ast.Expr) bool {
-			_, isID := ast.Unparen(e).(*ast.Ident)
-			return isID && pat.Expr("_total - _done.Get()").Match(info, peel(e), b) != nil
-		}
-		rel := func(f cfgq.Fact) (token.Token, bool) { // relation "total op done"
-			x, y, op, ok := flow.Rel(f)
-			switch {
-			case ok && isTotal(x) && isDone(y):
-				return op, true
-			case ok && isDone(x) && isTotal(y):
-				return map[token.Token]token.Token{token.EQL: token.EQL, token.NEQ: token.NEQ, token.LSS: token.GTR, token.GTR: token.LSS, token.LEQ: token.GEQ, token.GEQ: token.LEQ}[op], true
-			}
-			return 0, false
-		}
-		what = "done != total"
-		tracked = []types.Object{flow.Obj(info, b["_total"]), flow.Obj(info, b["_done"])}
-		known = func(f cfgq.Fact) bool {
-			_, ok1 := rel(f)
-			_, _, ok2 := flow.Cmp(info, f, isRem)
-			return ok1 || ok2
-		}
-		goOn = func(f cfgq.Fact) bool {
-			op, ok := rel(f)
-			return ok && (op == token.NEQ || op == token.GTR) || nonZero(info, f, isRem)
-		}
-		stop = func(f cfgq.Fact) bool {
-			if op, ok := rel(f); ok && (op == token.EQL || op == token.LEQ) {
-				return true
-			}
-			op, k, ok := flow.Cmp(info, f, isRem)
-			return ok && (op == token.EQL && k == 0 || op == token.LEQ && k == 0 || op == token.LSS && k == 1)
 		}
 	}
+	coefOf := func(e ast.Expr) int64 { // the coefficient of atom e in one of the forms
+		k := lin.Key(info, e)
+		for _, f := range forms {
+			if cv, ok := f.Coef[k]; ok {
+				return cv
+			}
+		}
+		return 0
+	}
+	accounted := false
+	var counter ast.Expr // the variable / counter that absorbs the result
+	core.Inspect(root, func(m ast.Node) bool {
+		switch st := m.(type) {
+		case *ast.AssignStmt:
+			if len(st.Lhs) != 1 || len(st.Rhs) != 1 {
+				return true
+			}
+			lh, rh := st.Lhs[0], ast.Unparen(st.Rhs[0])
+			be, isBin := rh.(*ast.BinaryExpr)
+			switch {
+			case st.Tok == token.SUB_ASSIGN && isCall(rh) && coefOf(lh) == 1,
+				st.Tok == token.ASSIGN && isBin && be.Op == token.SUB && pat.Same(info, be.X, lh) && isCall(be.Y) && coefOf(lh) == 1:
+				accounted, counter = true, lh
+			case st.Tok == token.ADD_ASSIGN && isCall(rh) && coefOf(lh) == -1,
+				st.Tok == token.ASSIGN && isBin && be.Op == token.ADD && pat.Same(info, be.X, lh) && isCall(be.Y) && coefOf(lh) == -1:
+				accounted, counter = true, lh
+			}
+		case *ast.CallExpr:
+			if ab := pat.Expr("_done.Add(_v)").Match(info, st, nil); ab != nil && isCall(ab["_v"].(ast.Expr)) {
+				get := &ast.CallExpr{Fun: &ast.SelectorExpr{X: ab["_done"].(ast.Expr), Sel: ast.NewIdent("Get")}}
+				if coefOf(get) == -1 {
+					accounted, counter = true, ab["_done"].(ast.Expr)
+				}
+			}
+		}
+		return true
+	})
+	if !accounted {
+		c.Undecidedf("R3.bounded", key+"/max-is-remaining", call.Pos(), "cannot see the result of Iocopy being taken off its max argument %s", c.Src(call.Args[3]))
+		return
+	}
+	c.Okf("R3.bounded", key+"/max-is-remaining", call.Pos(), "max is the remaining count and the result of Iocopy is taken off it (through %s)", c.Src(counter))
+	what := c.Src(call.Args[3]) + " > 0"
+	anyForm := func(test func(lin.Form) bool) bool {
+		for _, f := range forms {
+			if test(f) {
+				return true
+			}
+		}
+		return false
+	}
+	goOn = func(f cfgq.Fact) bool {
+		return anyForm(func(m lin.Form) bool {
+			return flow.LinIs(info, f, m, token.GTR, 0) || flow.LinIs(info, f, m, token.NEQ, 0)
+		})
+	}
+	stop = func(f cfgq.Fact) bool {
+		return anyForm(func(m lin.Form) bool {
+			return flow.LinIs(info, f, m, token.LEQ, 0) || flow.LinIs(info, f, m, token.EQL, 0)
+		})
+	}
+	known = func(f cfgq.Fact) bool {
+		cmp, ok := lin.CmpOf(info, f.Expr, f.Val)
+		if !ok || len(cmp.F.Coef) == 0 {
+			return false
+		}
+		for a := range cmp.F.Coef {
+			in := false
+			for _, m := range forms {
+				if _, has := m.Coef[a]; has {
+					in = true
+				}
+			}
+			if !in {
+				return false
+			}
+		}
+		return true
+	}
+	// the count starts at the announced size: M at loop entry
+	r.startsAtForm(key, fn.Decl.Body, forms, counter, sizeParam, info, call.Pos())
 	cp, inGraph := flow.PointOf(g, call)
 	if loop == nil || !inGraph {
 		c.Undecidedf("R3.bounded", key+"/until-exhausted", call.Pos(), "the copy is not inside a for loop of the analysed body")
@@ -313,6 +378,83 @@ func (r *rs) boundedCaller(key string, fn *core.Fn, g *cfgq.Graph, root ast.Node
 	default:
 		c.Check("R3.bounded", key+"/until-exhausted", loop.Pos(), true, detail)
 	}
+}
+
+// startsAtForm: the remaining count equals the announced size when the copy starts. For a countdown
+// variable that is its initial value; for total - done it is total, with done starting at 0.
+func (r *rs) startsAtForm(key string, root ast.Node, forms []lin.Form, counter ast.Expr, sizeParam types.Object, info *types.Info, pos token.Pos) {
+	c := r.c
+	k := key + "/counts-announced-size"
+	if sizeParam == nil {
+		c.Undecidedf("R3.bounded", k, pos, "size parameter not resolved")
+		return
+	}
+	sid := ast.NewIdent(sizeParam.Name())
+	info.Uses[sid] = sizeParam
+	want := lin.Of(info, sid)
+	co := flow.Obj(info, counter)
+	for _, m := range forms {
+		cKey := lin.Key(info, counter)
+		getKey := lin.Key(info, &ast.CallExpr{Fun: &ast.SelectorExpr{X: counter, Sel: ast.NewIdent("Get")}})
+		switch {
+		case len(m.Coef) == 1 && m.Coef[cKey] == 1 && co != nil:
+			r.startsAt(key, root, co, sizeParam, info, pos) // a countdown variable
+			return
+		case len(m.Coef) == 2 && (m.Coef[cKey] == -1 || m.Coef[getKey] == -1):
+			// total - done: take done out, what is left is the total
+			total := lin.Form{Coef: map[string]int64{}, Const: m.Const}
+			for a, v := range m.Coef {
+				if a != cKey && a != getKey {
+					total.Coef[a] = v
+				}
+			}
+			zero := co != nil && startsAtZero(info, root, co)
+			switch {
+			case total.Equal(want) && zero:
+				c.Okf("R3.bounded", k, pos, "the copy counts up to the announced size %s from 0", sizeParam.Name())
+			case (lin.Form{Coef: total.Coef}).Equal(lin.Form{Coef: want.Coef}) && zero:
+				c.Failf("R3.bounded", k, pos, "the copy counts %s%+d bytes, not the announced size: the hand-over to the command phase is off by that many bytes", sizeParam.Name(), total.Const-want.Const)
+			default:
+				c.Undecidedf("R3.bounded", k, pos, "cannot relate the total of the copy loop to the size parameter (progress counter starts at 0: %v)", zero)
+			}
+			return
+		}
+	}
+	c.Undecidedf("R3.bounded", k, pos, "the remaining count is not a countdown variable or total - done")
+}
+
+// startsAtZero: the progress counter is declared without a value (atomic counter, zero int) or initialised with 0.
+func startsAtZero(info *types.Info, root ast.Node, o types.Object) bool {
+	ok := false
+	bad := false
+	core.InspectAll(root, func(m ast.Node) bool {
+		switch st := m.(type) {
+		case *ast.ValueSpec:
+			for i, n := range st.Names {
+				if info.Defs[n] == o {
+					if len(st.Values) == 0 {
+						ok = true
+					} else if i < len(st.Values) {
+						ok = isConst(info, st.Values[i], 0)
+					}
+				}
+			}
+		case *ast.AssignStmt:
+			if st.Tok == token.DEFINE && len(st.Lhs) == len(st.Rhs) {
+				for i, l := range st.Lhs {
+					if id, isID := l.(*ast.Ident); isID && info.Defs[id] == o {
+						if isConst(info, st.Rhs[i], 0) {
+							ok = true
+						} else {
+							bad = true
+						}
+					}
+				}
+			}
+		}
+		return true
+	})
+	return ok && !bad
 }
 
 // startsAt: the counter x (countdown or total) is the announced size: the size parameter itself, or a
@@ -394,17 +536,11 @@ func (r *rs) pipeCopy() {
 		return
 	}
 	rd, wr := reads[0], writes[0]
-	n, rerr := assignedVar(info, fn.Decl.Body, rd, 0), assignedVar(info, fn.Decl.Body, rd, 1)
-	werr := assignedVar(info, fn.Decl.Body, wr, 1)
+	n := assignedVar(info, fn.Decl.Body, rd, 0)
 	buf := flow.Obj(info, rd.Args[0])
-	if n == nil || rerr == nil || werr == nil || buf == nil {
-		c.Undecidedf("R6.copy", "pSyncPipeCopy/shape", rd.Pos(), "results of Read/Write are not bound to variables")
+	if n == nil || buf == nil {
+		c.Undecidedf("R6.copy", "pSyncPipeCopy/shape", rd.Pos(), "the byte count of Read is not bound to a variable")
 		return
-	}
-	rp, _ := flow.PointOf(g, rd)
-	wp, _ := flow.PointOf(g, wr)
-	nilFact := func(o types.Object) func(cfgq.Fact) bool {
-		return func(f cfgq.Fact) bool { isNil, ok := flow.NilCmp(info, f, flow.IsObj(info, o)); return ok && isNil }
 	}
 	// written slice
 	arg := ast.Unparen(flow.Resolve(info, fn.Decl.Body, wr.Args[0]))
@@ -416,42 +552,117 @@ func (r *rs) pipeCopy() {
 	default:
 		c.Undecidedf("R6.copy", "pSyncPipeCopy/write-prefix", wr.Pos(), "Write argument %s not recognised", c.Src(arg))
 	}
-	errKnown := func(o types.Object) func(cfgq.Fact) bool {
-		return func(f cfgq.Fact) bool { _, ok := flow.NilCmp(info, f, flow.IsObj(info, o)); return ok }
+	// Path-sensitive walk of the copy loop. Per path it is known whether the last read and the last write
+	// reported an error (whatever variables carry the two errors - one shared variable included), what
+	// has happened since the last read, and what amount is counted.
+	readN, readErr := fmt.Sprintf("call%p#0", rd), fmt.Sprintf("call%p#1", rd)
+	writeN, writeErr := fmt.Sprintf("call%p#0", wr), fmt.Sprintf("call%p#1", wr)
+	type verdict struct {
+		bad, blind int
+		pos        token.Pos
 	}
-	if okd, wd := g.Dominated(wp, isNode(rp.Node())); !okd {
-		c.Check("R6.copy", "pSyncPipeCopy/write-after-good-read", wr.Pos(), false, "a write happens only after a read that returned no error", wd...)
-	} else {
-		r.guard("R6.copy", "pSyncPipeCopy/write-after-good-read", wr.Pos(), g, wp, nilFact(rerr), flow.Opaque(g, errKnown(rerr), rerr), "a write happens only after a read that returned no error")
-	}
-	// the counter
-	// the amount counted is n, or the length of the slice that was written
-	written := func(e ast.Expr) bool {
-		e = ast.Unparen(e)
-		return pat.Same(info, e, ast.Unparen(wr.Args[0])) || prefixOf(info, ast.Unparen(flow.Resolve(info, fn.Decl.Body, e)), flow.IsObj(info, buf), flow.IsObj(info, n))
-	}
-	adds := flow.FindCalls(fn.Decl.Body, func(call *ast.CallExpr) bool {
-		if pat.Expr("_c.Add(_v)").Match(info, call, nil) == nil {
-			return false
+	v := map[string]*verdict{"write-after-good-read": {}, "count-after-write": {}, "count-only-on-success": {}, "every-write-counted": {}, "every-read-written": {}}
+	adds, otherAdds := 0, 0
+	errState := func(w *flow.Sym, st *flow.SState, tok string) flow.SKind {
+		k := flow.SUnknown
+		held := false
+		for _, val := range st.Env {
+			if val.Tok == tok {
+				held, k = true, val.Kind
+			}
 		}
-		amount := unconv(info, flow.Resolve(info, fn.Decl.Body, unconv(info, call.Args[0])))
-		if lc, ok := amount.(*ast.CallExpr); ok && flow.IsBuiltin(info, lc, "len") && len(lc.Args) == 1 && written(lc.Args[0]) {
-			return true
+		if !held {
+			return -1 // the error is not kept in any variable
 		}
-		return flow.IsObj(info, n)(amount)
-	})
-	if len(adds) != 1 {
-		c.Undecidedf("R6.copy", "pSyncPipeCopy/count", fn.Decl.Pos(), "expected one counter.Add(n), found %d", len(adds))
+		return k
+	}
+	flag := func(st *flow.SState, name string) bool { return st.Marks[name].B }
+	set := func(st *flow.SState, name string, b bool) { st.Marks[name] = flow.SVal{Kind: flow.SBool, B: b} }
+	w := &flow.Sym{G: g}
+	w.Visit = func(m ast.Node, st *flow.SState) bool {
+		for _, call := range cfgq.ExecCalls(m) {
+			switch {
+			case call == rd:
+				if flag(st, "wrote") && !flag(st, "counted") {
+					v["every-write-counted"].bad++
+					v["every-write-counted"].pos = wr.Pos()
+				}
+				if flag(st, "read") && !flag(st, "wrote") {
+					v["every-read-written"].bad++
+					v["every-read-written"].pos = rd.Pos()
+				}
+				set(st, "read", true)
+				set(st, "wrote", false)
+				set(st, "counted", false)
+			case call == wr:
+				x := v["write-after-good-read"]
+				x.pos = wr.Pos()
+				switch k := errState(w, st, readErr); {
+				case !flag(st, "read") || k == flow.SNonNil || k == -1:
+					x.bad++
+				case k != flow.SNil:
+					x.blind++
+				}
+				set(st, "wrote", true)
+			default:
+				if pat.Expr("_c.Add(_v)").Match(info, call, nil) == nil || !flag(st, "read") {
+					continue
+				}
+				am := w.Eval(call.Args[0], st)
+				lenOfWritten := false
+				if lc, ok := unconv(info, flow.Resolve(info, fn.Decl.Body, unconv(info, call.Args[0]))).(*ast.CallExpr); ok && flow.IsBuiltin(info, lc, "len") && len(lc.Args) == 1 {
+					e := ast.Unparen(lc.Args[0])
+					lenOfWritten = pat.Same(info, e, ast.Unparen(wr.Args[0])) || prefixOf(info, ast.Unparen(flow.Resolve(info, fn.Decl.Body, e)), flow.IsObj(info, buf), flow.IsObj(info, n))
+				}
+				if am.Tok != readN && am.Tok != writeN && !lenOfWritten {
+					otherAdds++
+					continue
+				}
+				adds++
+				x, y := v["count-after-write"], v["count-only-on-success"]
+				x.pos, y.pos = call.Pos(), call.Pos()
+				if !flag(st, "wrote") {
+					x.bad++
+				} else {
+					switch k := errState(w, st, writeErr); {
+					case k == flow.SNonNil || k == -1:
+						y.bad++
+					case k != flow.SNil:
+						y.blind++
+					}
+				}
+				set(st, "counted", true)
+			}
+		}
+		return false
+	}
+	w.Run(nil)
+	if adds == 0 {
+		c.Undecidedf("R6.copy", "pSyncPipeCopy/count", fn.Decl.Pos(), "no counter.Add of the bytes read or written found (%d other Add calls)", otherAdds)
 		return
 	}
-	ap, _ := flow.PointOf(g, adds[0])
-	okA, wA := g.Dominated(ap, isNode(wp.Node()))
-	c.Check("R6.copy", "pSyncPipeCopy/count-after-write", adds[0].Pos(), okA, "n is counted only after the n bytes were written: counting first advances the acknowledged offset past bytes that a failing write never delivered", wA...)
-	r.guard("R6.copy", "pSyncPipeCopy/count-only-on-success", adds[0].Pos(), g, ap, nilFact(werr), flow.Opaque(g, errKnown(werr), werr), "n is counted only when the write reported no error: otherwise the offset used for the reconnect skips bytes that were never forwarded (lost)")
-	w := g.Path(cfgq.Query{From: wp, After: true, Avoid: isNode(ap.Node()), AvoidEdge: flow.ErrEdge(g), Target: isNode(rp.Node())})
-	c.Check("R6.copy", "pSyncPipeCopy/every-write-counted", wr.Pos(), w == nil, "every successful write is counted before the next read: uncounted bytes are requested again after a reconnect (duplicated)", w...)
-	w2 := g.Path(cfgq.Query{From: rp, After: true, Avoid: isNode(wp.Node()), AvoidEdge: flow.ErrEdge(g), Target: isNode(rp.Node())})
-	c.Check("R6.copy", "pSyncPipeCopy/every-read-written", rd.Pos(), w2 == nil, "every successful read is written before the next read: otherwise the bytes of that read are dropped", w2...)
+	details := map[string]string{
+		"write-after-good-read": "a write happens only after a read that returned no error",
+		"count-after-write":     "n is counted only after the n bytes were written: counting first advances the acknowledged offset past bytes that a failing write never delivered",
+		"count-only-on-success": "n is counted only when the write reported no error: otherwise the offset used for the reconnect skips bytes that were never forwarded (lost)",
+		"every-write-counted":   "every successful write is counted before the next read: uncounted bytes are requested again after a reconnect (duplicated)",
+		"every-read-written":    "every successful read is written before the next read: otherwise the bytes of that read are dropped",
+	}
+	for _, k := range []string{"write-after-good-read", "count-after-write", "count-only-on-success", "every-write-counted", "every-read-written"} {
+		x := v[k]
+		pos := x.pos
+		if pos == token.NoPos {
+			pos = wr.Pos()
+		}
+		switch {
+		case x.bad > 0:
+			c.Check("R6.copy", "pSyncPipeCopy/"+k, pos, false, details[k])
+		case x.blind > 0 || w.Overflow:
+			c.Undecidedf("R6.copy", "pSyncPipeCopy/"+k, pos, "an error value is tested in a form that is not understood; required: %s", details[k])
+		default:
+			c.Check("R6.copy", "pSyncPipeCopy/"+k, pos, true, details[k])
+		}
+	}
 }
 
 // ---------------------------------------------------------------------------
